@@ -256,6 +256,14 @@ def cli_case(rng, focus=None):
         if rng.random() < 0.6:
             kv["failevery"] = rng.choice([2, 3, 5])
     valid = not bad
+    if "failevery" in kv and rng.random() < 0.5:
+        kv["failkind"] = rng.choice(["panicerr", "panicstr", "nilmap", "errorf"])
+    if rng.random() < 0.15:
+        kv["combine"] = 1
+    if rng.random() < 0.08:
+        kv["twice"] = 1
+    if rng.random() < 0.15 and not bad:
+        kv["logfile"] = rng.choice(["good", "bad"])
     if mode == "constant":
         if rng.random() < 0.9 or not valid:
             kv["rate"] = hx(cli_rate(rng, valid or rng.random() < 0.5))
@@ -265,6 +273,8 @@ def cli_case(rng, focus=None):
             kv["bodyms"] = rng.choice([5, 30])
         if valid and kv.get("dist") == hx("none") and "rate" in kv:
             kv["meaning"] = 1
+        elif valid and "rate" in kv and "dist" in kv:
+            kv["meaningmax"] = 1
         if valid and "maxit" not in kv and not setupfail:
             kv["timing"] = 1
     elif mode == "staged":
@@ -335,6 +345,17 @@ def cli_case(rng, focus=None):
         kv["fstages"] = ";".join(sts)
         if all(s.startswith("u") for s in sts) and "maxit" in kv and not setupfail and kv["bodyms"] == 1:
             kv["expectlimit"] = 1
+        if rng.random() < 0.3:        # every stage inherits one parameter from the default section
+            kv["fshared"] = 1
+        if rng.random() < 0.25:       # restarted late: the schedule began a while ago (some or all stages are over)
+            kv["fstart"] = rng.choice([50, 120, 260, 7200000])
+            kv.pop("expectlimit", None)
+        if rng.random() < 0.2:
+            kv["fdur"] = rng.choice([120, 180])      # the run ends inside a stage
+        if "failevery" in kv and rng.random() < 0.5:
+            kv["failkind"] = rng.choice(["panicerr", "panicstr", "nilmap", "errorf"])
+        if rng.random() < 0.15:
+            kv["combine"] = 1
         return "cli " + " ".join("%s=%s" % (k, v) for k, v in kv.items())
     # ---- ways the line itself is refused
     if bad:
@@ -429,6 +450,25 @@ def cli_corpus():
         c(mode="users", dur=d200, conc=2, bodyms=10, tdfail=2),
         c(mode="users", dur=d200, conc=2, bodyms=10, setupfail=1),
         c(mode="users", dur=d200, conc=2, bodyms=10, setupfail=2),
+        c(mode="users", dur=hx("400ms"), conc=2, maxit=10, failevery=2, maxfailrate=100, bodyms=0, expectlimit=1),   # 100 % tolerated
+        c(mode="users", dur=hx("400ms"), conc=2, maxit=10, failevery=1, maxfailrate=100, bodyms=0, expectlimit=1),
+        c(mode="users", dur=hx("400ms"), conc=2, maxit=10, failevery=2, maxfailrate=150, bodyms=0, expectlimit=1),
+        c(mode="users", dur=hx("2s"), conc=2, bodyms=10, failevery=3, sigint=100),                                   # Ctrl-C: the exit status still follows the verdict
+        c(mode="users", dur=hx("2s"), conc=2, bodyms=10, sigint=100),
+        c(mode="constant", dur=hx("2s"), conc=1, rate=hx("10/50ms"), dist=none, bodyms=30, sigint=150),             # interrupted with drops
+        c(mode="users", dur=d200, conc=2, bodyms=5, failevery=2, failkind="panicerr", logfile="bad"),               # the scenario log cannot be opened
+        c(mode="users", dur=d200, conc=2, bodyms=5, failevery=2, failkind="errorf", logfile="bad"),
+        c(mode="users", dur=d200, conc=2, bodyms=5, failevery=2, failkind="nilmap", logfile="good"),
+        c(mode="users", dur=d200, conc=2, bodyms=5, maxit=8, failevery=2, failkind="panicerr", combine=1),          # combined scenario: panics with an error value
+        c(mode="users", dur=d200, conc=2, bodyms=5, maxit=8, failevery=3, failkind="nilmap", combine=1, twice=1),  # … executed twice on one F1
+        c(mode="users", dur=d200, conc=1, bodyms=0, maxit=5, combine=1, twice=1, expectlimit=1),
+        c(mode="gaussian", dur=hx("1200ms"), conc=4, freq=hx("500ms"), timing=1),                                    # ticks every 100 ms sub-tick, not every --iteration-frequency
+        c(mode="staged", dur=hx("1200ms"), conc=4, freq=hx("400ms"), stages=hx("0s:4,2s:4"), timing=1),
+        c(mode="constant", dur=hx("1200ms"), conc=4, rate=hx("5/s"), meaningmax=1, timing=1),                       # regular distribution: 5 per second, not 10
+        c(mode="file", fdur=800, conc=2, bodyms=5, fstages="c:150:3/50ms;u:150:2", fstart=7200000),                   # restarted after the last stage: nothing to run, no error
+        c(mode="file", fdur=800, conc=2, bodyms=5, fstages="c:150:3/50ms;u:150:2", fstart=200),
+        c(mode="file", fdur=250, conc=2, bodyms=5, fstages="c:150:3/50ms;c:300:3/50ms;u:150:2", fshared=1),           # shared parameter, run ends inside stage 2
+        c(mode="file", fdur=800, conc=2, bodyms=1, maxit=4, fstages="u:150:2;c:300:3/50ms", fshared=1),
         c(mode="constant", dur=d200, conc=2, raw=hx("--nope")),
         c(mode="constant", dur=d200, conc=2, raw=hx("extra-positional")),
     ]
